@@ -141,7 +141,16 @@ pub fn check_all(run: &Run) {
             let d = c.dir();
             let rel: [(i8, i8); 4] = [(f, r + d), (f, r + 2 * d), (f - 1, r + d), (f + 1, r + d)];
             let relevant: u64 = set(rel.iter().copied());
-            let noises: [u64; 5] = [0, !relevant, 0xAA55AA55AA55AA55 & !relevant, 0x55AA55AA55AA55AA & !relevant, (1u64 << s) & !relevant];
+            let mut noises: Vec<u64> = vec![0, !relevant, 0xAA55AA55AA55AA55 & !relevant, 0x55AA55AA55AA55AA & !relevant, (1u64 << s) & !relevant];
+            // every single irrelevant square and every pair of irrelevant squares (the pawn's own
+            // square and the square behind it included)
+            let irr: Vec<u8> = (0..64u8).filter(|q| relevant & (1u64 << q) == 0).collect();
+            for (i, a) in irr.iter().enumerate() {
+                noises.push(1u64 << a);
+                for b in irr.iter().skip(i + 1) {
+                    noises.push((1u64 << a) | (1u64 << b));
+                }
+            }
             for occ_bits in 0..16u32 {
                 let mut occ = 0u64;
                 for (i, &(ff, rr)) in rel.iter().enumerate() {
@@ -149,7 +158,7 @@ pub fn check_all(run: &Run) {
                         occ |= 1u64 << sq(ff, rr);
                     }
                 }
-                for noise in noises {
+                for &noise in noises.iter() {
                     let blockers = occ | noise;
                     let has = |ff: i8, rr: i8| on_board(ff, rr) && blockers & (1u64 << sq(ff, rr)) != 0;
                     let want_att = set([(f - 1, r + d), (f + 1, r + d)].into_iter().filter(|&(ff, rr)| has(ff, rr)));
@@ -263,7 +272,7 @@ pub fn check_all(run: &Run) {
     }
 }
 
-pub const RULE: &str = "complete enumeration: between and line on all 64x64 pairs (line(a,a) is not judged: the statement defines line only for two squares); king, knight moves and rook, bishop rays on 64 squares; pawn attacks / quiets / moves on 64 squares x 2 colours x all 16 occupancies of the two push and two capture squares x 5 noise patterns on the irrelevant squares; rank, file, adjacent-file sets and EDGES; all 16 square stepping helpers on 64 squares; Rank/File wrapping helpers; make_square/get_rank/get_file bijection. Oracle: definitions on integer (file, rank) coordinates. distinct_nontrivial = cases whose expected answer is a non-empty set or an edge case (None / wrap)";
+pub const RULE: &str = "complete enumeration: between and line on all 64x64 pairs (line(a,a) is not judged: the statement defines line only for two squares); king, knight moves and rook, bishop rays on 64 squares; pawn attacks / quiets / moves on 64 squares x 2 colours x all 16 occupancies of the two push and two capture squares x noise on the irrelevant squares (none, all, two checkerboards, every single irrelevant square, every pair of irrelevant squares); rank, file, adjacent-file sets and EDGES; all 16 square stepping helpers on 64 squares; Rank/File wrapping helpers; make_square/get_rank/get_file bijection. Oracle: definitions on integer (file, rank) coordinates. distinct_nontrivial = cases whose expected answer is a non-empty set or an edge case (None / wrap)";
 
 pub fn run(tier: Tier) -> i32 {
     let run = Arc::new(Run::new("C16", tier, COUNTERS));
@@ -273,7 +282,7 @@ pub fn run(tier: Tier) -> i32 {
     run.sample(json!({"kind": "pair", "call": "between(a1, h8)", "expected": bbs(ref_between(0, 63))}));
     run.sample(json!({"kind": "pair", "call": "line(c2, e4)", "expected": bbs(ref_line(10, 28))}));
     run.sample(json!({"kind": "pawn", "call": "get_pawn_quiets(e2, White, {e4})", "expected": ["e3"]}));
-    run.assume("the noise patterns on squares irrelevant to a pawn are a fixed catalogue of 5, not all 2^60 subsets");
+    run.assume("the noise on squares irrelevant to a pawn is a catalogue (none, all, checkerboards, all singles, all pairs), not all 2^60 subsets");
     run.finish("exploration", RULE, true, json!({}))
 }
 pub fn replay(_case: &Value) -> i32 {
